@@ -360,7 +360,7 @@ theorem readSlice8_exact {old : Bytes} {len : Int} {r r' : Reader} {bs : Bytes}
       cases res0 with
       | error e => simp at h
       | ok u =>
-        obtain ⟨rfl, _, _⟩ := checkLength_ok hc
+        obtain ⟨rfl, _, _⟩ := checkLength_ok_inv hc
         simp only at h
         rcases readFull_ok h with ⟨hz, _, _⟩ | ⟨_, e1, e2, e3, e4⟩
         · omega
@@ -377,7 +377,7 @@ theorem readBytes_exact {len : Int} {r r' : Reader} {bs : Bytes}
     cases res0 with
     | error e => simp at h
     | ok u =>
-      obtain ⟨rfl, h0, _⟩ := checkLength_ok hc
+      obtain ⟨rfl, h0, _⟩ := checkLength_ok_inv hc
       simp only at h
       rcases readFull_ok h with ⟨hz, e1, e2⟩ | ⟨_, e1, e2, e3, e4⟩
       · subst e1 e2; exact ⟨h0, by simp [hz], rfl, by omega, by omega⟩
